@@ -242,3 +242,30 @@ func Param(name string) string { return os.Getenv("GOSYM_PARAM_" + name) }
 // NoSummaries makes the executor run the library's random-code generators from their real
 // bodies instead of their contracts (used by the kernels that check those generators).
 func NoSummaries() {}
+
+// AllBytesIn reports whether every byte of s lies in one of the inclusive ranges given as
+// consecutive byte pairs in classes (e.g. "azAZ09" = letters and digits). Non-forking.
+func AllBytesIn(s, classes string) bool {
+	for i := 0; i < len(s); i++ {
+		ok := false
+		for j := 0; j+1 < len(classes); j += 2 {
+			if s[i] >= classes[j] && s[i] <= classes[j+1] {
+				ok = true
+			}
+		}
+		if !ok {
+			return false
+		}
+	}
+	return true
+}
+
+// Chars returns an arbitrary byte string of length exactly n built from n independent
+// one-byte inputs (label_0 .. label_{n-1}): position-wise reasoning stays structural.
+func Chars(label string, n int) string {
+	b := make([]byte, n)
+	for i := 0; i < n; i++ {
+		b[i] = byte(Int(label+"_"+strconv.Itoa(i), 0, 255))
+	}
+	return string(b)
+}
